@@ -104,6 +104,13 @@ TEXT["C12"] = {
     "design_ref": "DESIGN.md section 3, C12",
 }
 
+TEXT["C09"] = {
+    "technique": "property-based testing (rapid); differential against a reference interpreter of the generated tag tree",
+    "text": "Generated nestings (depth <= 4) of if/elif/else, ifequal/ifnotequal, firstof, for (+empty, reversed, sorted, key/value over sorted maps), cycle (plain/as/silent) and ifchanged over generated lists, strings (multi-byte), maps, nil and scalars are rendered once on a fresh compile and compared with an independent reference interpreter that implements the semantics stated by the property, including every forloop field and Parentloop chain inside bodies and inside empty branches.",
+    "note": "Trusted: the reference interpreter in harness/props/mm_test.go. ifchanged inside nested loops and unsorted map iteration are outside the asserted fragment (see evidence assumptions).",
+    "design_ref": "DESIGN.md section 3, C09",
+}
+
 PENDING_REASON = "check not built yet in this build phase (DESIGN.md section 3 describes the planned PBT check); will be claimed once its quick tier is silent on the unchanged tree and kills its mutants"
 
 
